@@ -86,6 +86,14 @@ def shapes():
     S["position.x == position.y (same variable)"] = lambda o: (p := let(Position, o["Position"]), p.x == p.y)
     S["fixed.parent == prismatic.child (join)"] = lambda o: (f := let(FixedConnection, o["FixedConnection"]), f.parent == let(PrismaticConnection, o["PrismaticConnection"]).child)
     S["fixed.child == prismatic.parent (join)"] = lambda o: (f := let(FixedConnection, o["FixedConnection"]), f.child == let(PrismaticConnection, o["PrismaticConnection"]).parent)
+    # the same joins written the other way round (the SELECTED variable on the right of ==), and with a literal on the left of an ordering
+    S["prismatic.child == fixed.parent (join, selected on the right)"] = lambda o: (f := let(FixedConnection, o["FixedConnection"]), let(PrismaticConnection, o["PrismaticConnection"]).child == f.parent)
+    S["prismatic.parent == fixed.child (join, selected on the right)"] = lambda o: (f := let(FixedConnection, o["FixedConnection"]), let(PrismaticConnection, o["PrismaticConnection"]).parent == f.child)
+    S["fixed.parent == prismatic.parent (join, same attribute)"] = lambda o: (f := let(FixedConnection, o["FixedConnection"]), f.parent == let(PrismaticConnection, o["PrismaticConnection"]).parent)
+    for op in ("<", "<=", ">", ">="):
+        S[f"literal {op} position.z (value on the left)"] = lambda o, op=op: (p := let(Position, o["Position"]), OPS[op](let(float, [2.0]), p.z))
+    S["in_(body.name, ['b0 and more'])"] = lambda o: (b := let(Body, o["Body"]), in_(b.name, ["b0 and more"]))
+    S["in_(body.name, ['b1'])"] = lambda o: (b := let(Body, o["Body"]), in_(b.name, ["b1"]))
     S["fixed.parent.name == b0 and fixed.child.name == b1 (two paths to one table)"] = lambda o: (f := let(FixedConnection, o["FixedConnection"]), and_(f.parent.name == "b0", f.child.name == "b1"))
     S["fixed.parent.name == b0 or fixed.child.name == b0 (two paths to one table)"] = lambda o: (f := let(FixedConnection, o["FixedConnection"]), or_(f.parent.name == "b0", f.child.name == "b0"))
     S["prismatic.parent.name != prismatic.child.name"] = lambda o: (f := let(PrismaticConnection, o["PrismaticConnection"]), f.parent.name != f.child.name)
